@@ -179,6 +179,17 @@ func (f *recFile) Close() error {
 }
 func (f *recFile) Read(p []byte) (int, error) {
 	i, flt := f.r.hit(fsCall{Op: "Read", Path: f.path, N: len(p)})
+	if flt && (f.r.kind == "partial" || f.r.kind == "partial-error") {
+		// half of the requested bytes arrive; then either an I/O error ("partial-error") or nothing special
+		// ("partial": a short count without error is legal for an io.Reader, the caller has to read on)
+		n, _ := f.File.Read(p[:(len(p)+1)/2])
+		f.r.calls[i].N = n
+		f.r.calls[i].Err = f.r.kind
+		if f.r.kind == "partial-error" {
+			return n, errInjected
+		}
+		return n, nil
+	}
 	if flt {
 		return 0, f.r.fail(i)
 	}
